@@ -269,6 +269,31 @@ def _run(pid, cfg, tier, seed, repo, work, t0):
         rc = 1
     for kfd, f in known_hit:
         lines.append("KNOWN-FINDING: property=%s %s" % (pid, kfd.get("what", kfd.get("obligation"))))
+    if undecided and rc == 0 and cfg.get("replay"):
+        # The deductive lane could not bring (part of) the code in front of the verifier.  Bounded stand-in: run the
+        # executable oracles of the same contracts on the real crate; a concrete failing input is a violation (never
+        # a false alarm), its absence leaves the verdict undecided.  Labelled bounded, never counted as proved.
+        from . import replay as rp
+        fails, out = rp.run_oracles(cfg["replay"], repo, work, seed)
+        mine = [x for x in fails if pid in x.get("props", [])]
+        known_open = [k for k in load_known() if k.get("property") == pid and k.get("status") == "open"]
+        ev["coverage"]["bounded_standin"] = dict(reason="verifier undecided: " + "; ".join(undecided)[:400], oracle_groups=cfg["replay"], seed=seed,
+                                                 failures=len(mine), note="bounded / sampled, not proof")
+        for n, x in enumerate(mine[:3]):
+            key = "oracle:%s" % x.get("clause")
+            if any(k.get("obligation") == key for k in known_open):
+                lines.append("KNOWN-FINDING: property=%s %s" % (pid, key))
+                continue
+            os.makedirs(os.path.join(ROOT, "replays"), exist_ok=True)
+            path = os.path.join(ROOT, "replays", "%s-%d.json" % (pid, n))
+            with open(path, "w") as fo:
+                json.dump(dict(property=pid, lane="oracle (bounded stand-in; the verifier was undecided)", seed=seed, tree=repo,
+                               failed_obligation="oracle:%s" % x.get("clause"), function=x.get("function"), counterexample=x,
+                               undecided=undecided,
+                               replay=dict(kind="oracle-test", groups=cfg["replay"], test=x.get("test"), seed=seed)), fo, indent=1)
+            lines.append("VIOLATION property=%s replay=%s" % (pid, path))
+            ev["violations"] = ev.get("violations", 0) + 1
+            rc = 1
     if undecided and rc == 0:
         rc = 2
     if os.environ.get("VX_WRITE_BASELINE") and rc == 0:
